@@ -1,11 +1,11 @@
 SPECIFICATION Spec
 CONSTANTS
   NoLib <- MC_NoLib
-  Tables <- MC_Tables1
-  Libs <- MC_Libs3
+  Tables <- MC_Tables2
+  Libs <- MC_Libs2
   StdLib = "stdlib"
   MaxVer = 2
-  MaxDisable = 2
+  MaxDisable = 0
   Dev = "none"
 INVARIANTS TypeOK Promised CacheAllowed ClearedSound
 CHECK_DEADLOCK FALSE
